@@ -89,8 +89,12 @@ def c16_stage(tier, seed, env, log):
     orders = set()
     for line in re.findall(r"ORDERS ([0-9,;]*)", out or ""):
         for o in line.split(";"):
-            if o:
-                orders.add(o)
+            # output of parallel seeds can interleave: keep only well-formed permutations of 0..k-1
+            try:
+                if o and sorted(int(t) for t in o.split(",")) == list(range(hooked_cpus)):
+                    orders.add(o)
+            except ValueError:
+                pass
     ev["miri_hooked"] = {"workers": hooked_cpus, "seeds": hooked_seeds, "exit": rc, "distinct_completion_orders": len(orders),
                          "sample_orders": sorted(orders)[:8]}
     if rc is None:
